@@ -5,9 +5,11 @@ SPEC = {
     'claimed': False,
     'theorems': [
         'C11_model_refines_spec_partial', 'C11_failed_tx_equiv_fee_only_partial', 'C11_guard_example',
+        'C11_guard_spec_level',
         'C11_state_refines_spec', 'C11_state_failed_tx_equiv_fee_only',
         'C11_spec_replace_block', 'C11_spec_failed_leaves_fee_only',
-        'C11_refuted', 'C11_failed_tx_equiv_fee_only_refuted',
+        'C11_refuted', 'C11_localdb_ops_partial', 'C11_ops_guard_example', 'C11_localdb_ops_refuted',
+        'C11_failed_tx_equiv_fee_only_refuted',
     ],
     'allowed_axioms': [],
     'shard': 24,
@@ -17,8 +19,9 @@ SPEC = {
             '(type, KV list with account values canonicalised to balances, log types) and every value a script read (state Get, '
             'local Get/List; recorded by the drivers, also for transactions that fail afterwards). Small alphabets: 8 state keys, '
             '6 local keys, 4 list prefixes, 4 payers (one rich, one with 7 fees, one with 2.5 fees, one empty). Streams: '
-            'block-fixed (hand-written), block-witness (known finding 1), block-guarded (a transaction/group that may fail writes no '
-            'local data, so no Rollback happens with buffered writes: any spec failure is a violation), block-unrestricted. '
+            'block-fixed (hand-written), block-witness (known finding 1), block-guarded (a transaction/group that may fail either writes no '
+            'local data or flushes its local writes with a List before it fails, and coins transfers are not grouped with local '
+            'writers, so no Rollback happens with buffered writes: any spec failure is a violation), block-unrestricted. '
             'COps: one case = one Begin/Set/Get/List/Commit/Rollback history on executor.NewLocalDB(client, api, false) of the same '
             'node; streams ops-guarded (a List flushes before every Rollback), ops-unrestricted (bracketed), ops-unbracketed '
             '(correspondence only: the specification speaks about bracketed histories), ops-witness. CEnv: the address/key '
@@ -41,9 +44,10 @@ SPEC = {
         'a panic inside ExecLocal (not recovered by executor.Exec; aborts the whole EventExecTxList) is not modelled',
     ],
     'assumptions': [
-        'guard of the _partial theorems (boolean, third component of run_model): at every Rollback of the block the buffered write list '
-        'of executor.LocalDB is empty, i.e. every local write of a failing transaction/group was flushed by a List before the failure, '
-        'or there was none',
+        'guard of the _partial theorems (boolean, third component of run_model; xdb_guard for histories): at every Rollback the buffered '
+        'write list of executor.LocalDB is empty, i.e. every local write of a failing transaction/group was flushed by a List before the '
+        'failure, or there was none. C11_guard_spec_level: the guard does not depend on cache contents (it equals the instrumentation bit '
+        'a_dirty of the specification run); the replaced block always satisfies it',
         'sorted main: the local database content is a map (no duplicate keys)',
     ],
     'manifest': {
